@@ -932,7 +932,8 @@ Holds(c, r, st) ==
     [] c = <<"DRIFT", "lock_refuses_as_modelled">> -> r.waited
     [] c = <<"DRIFT", "schedule_replayed">> ->
          /\ r.outcome = "completed"
-         /\ r.schedule_len > 0 => (r.scheduled = r.schedule_len /\ r.extra = 0)
+         \* (the schedule of a probe program is only a prefix to steer by)
+         /\ (r.schedule_len > 0 /\ ~r.probe) => (r.scheduled = r.schedule_len /\ r.extra = 0)
     [] c = <<"C19", "preconditions_hold">> -> r.probes.failed = <<>>
     [] c[1] = "C19" -> c[2] \notin ToSet(r.probes.failed)
     [] c[1] = "C16" -> C16Holds(c, r)
